@@ -13,6 +13,7 @@ import (
 	"strings"
 	"time"
 
+	"github.com/mandykoh/prism/meta"
 	"github.com/mandykoh/prism/meta/icc"
 
 	"verifharness/internal/core"
@@ -182,6 +183,25 @@ func c16Check(h []byte, via string) (kind, msg string) {
 			return "", "reader position after the first profile is not its end: n/a"
 		}
 		p, err, pan = readProfile(br)
+	case "data-reused": // one meta.Data object that held another profile before (and was asked for it)
+		other := append([]byte{}, h...)
+		for i := range other {
+			if i < 36 || i >= 40 {
+				other[i] ^= 0xFF
+			}
+		}
+		md := &meta.Data{}
+		md.SetICCProfileData(c16Profile(other))
+		_, _ = md.ICCProfile()
+		md.SetICCProfileData(prof)
+		func() {
+			defer func() {
+				if x := recover(); x != nil {
+					pan = x
+				}
+			}()
+			p, err = md.ICCProfile()
+		}()
 	case "after-rejected": // history: a profile with the complementary header bits is rejected part-way first
 		other := append([]byte{}, h...)
 		for i := range other {
@@ -330,6 +350,25 @@ func runC16(r *core.Run) {
 				headers = append(headers, h)
 			}
 		}
+		// every signature the ICC specification and its registries define (colour spaces incl. the
+		// legacy multi-channel ones, classes, platforms, common CMMs and manufacturers), and case
+		// variants, in every four-byte field of the header: a reader that "canonicalises" one of them shows
+		sigs := []string{"XYZ ", "Lab ", "Luv ", "YCbr", "Yxy ", "RGB ", "GRAY", "HSV ", "HLS ", "CMYK", "CMY ",
+			"2CLR", "3CLR", "4CLR", "5CLR", "6CLR", "7CLR", "8CLR", "9CLR", "ACLR", "BCLR", "CCLR", "DCLR", "ECLR", "FCLR",
+			"MCH1", "MCH2", "MCH3", "MCH4", "MCH5", "MCH6", "MCH7", "MCH8", "MCH9", "MCHA", "MCHB", "MCHC", "MCHD", "MCHE", "MCHF",
+			"nc01", "ncFF", "scnr", "mntr", "prtr", "link", "spac", "abst", "nmcl", "cenc", "mid ", "mlnk", "mvis",
+			"APPL", "MSFT", "SGI ", "SUNW", "TGNT", "ADBE", "lcms", "appl", "argl", "KCMS", "UCCM", "HDM ", "Lino", "none", "acsp", "desc", "mluc",
+			"rgb ", "cmyk", "gray", "lab ", "xyz ", "Mntr", "MNTR", "aPPL", "Msft"}
+		for si, sg := range sigs {
+			for _, off := range []int{4, 12, 16, 20, 40, 48, 52, 80} {
+				h := append([]byte{}, std[:]...)
+				if (si+off)%3 == 0 {
+					h = base(2)
+				}
+				copy(h[off:off+4], sg)
+				headers = append(headers, h)
+			}
+		}
 		// the PCS illuminant: D50 as ICC writes it, each word off by up to 4 in every combination of signs
 		d50 := [3]uint32{0x0000F6D6, 0x00010000, 0x0000D32D}
 		for _, dx := range []int{-4, -3, -1, 0, 1, 2, 3} {
@@ -367,7 +406,7 @@ func runC16(r *core.Run) {
 		}
 		r.AddEvals(1)
 		if i%17 == 0 {
-			for _, via := range []string{"png", "bufio@4000", "short-reads", "bytes.Reader@offset", "strings.Reader@offset", "bytes.Buffer", "section", "second-in-reader", "after-rejected"} {
+			for _, via := range []string{"png", "bufio@4000", "short-reads", "bytes.Reader@offset", "strings.Reader@offset", "bytes.Buffer", "section", "second-in-reader", "after-rejected", "data-reused"} {
 				if kind, msg := c16Check(h, via); kind != "" {
 					r.Violate("header", kind+"/"+via, msg, c16Case{Header: hex.EncodeToString(h), Via: via})
 				}
